@@ -266,9 +266,9 @@ theorem cycle_ok : RuleOK cycleRule := by
     · cases hc
 
 theorem names_ok : RuleOK namesRule := by
-  refine ⟨fun (ns : List String) => ?_, fun ns c hc => ⟨_, List.mem_singleton.mpr rfl, mem_map_const hc⟩⟩
-  show (repeats [] ns).map (fun _ => code "Redefinition") = [] ↔ ns.Nodup
-  rw [List.map_eq_nil_iff, repeats_nil_iff_nodup]
+  refine ⟨fun (ns : List String × List String) => ?_, fun ns c hc => ⟨_, List.mem_singleton.mpr rfl, mem_map_const hc⟩⟩
+  show (repeats ns.1 ns.2).map (fun _ => code "Redefinition") = [] ↔ ns.2.Nodup ∧ ∀ x ∈ ns.2, x ∉ ns.1
+  rw [List.map_eq_nil_iff, repeats_nil_iff]
 
 theorem placement_ok (b : Bool) : RuleOK (placementRule b) := by
   refine ⟨fun s => ?_, fun s c hc => ⟨_, List.mem_singleton.mpr rfl, mem_map_const hc⟩⟩
@@ -709,6 +709,18 @@ theorem dupEnumeratorField_rejected :
     ¬ namesRule.Holds dupEnumeratorField ∧ validate dupEnumeratorField = [code "Redefinition"] := by
   decide
 
+/-- `module A` + `struct B {}` next to `module A::B::C` + `struct D {}` (D-15a / D-15b): the definition `A::B` shares its fully-scoped
+    name with a module that the nested declaration declares -/
+def moduleNameClash : Program :=
+  [{ fileAttrs := [], module := some ⟨[], "A"⟩, defs := [.struct [] [] false "B" []] },
+   { fileAttrs := [], module := some ⟨[], "A::B::C"⟩, defs := [.struct [] [] false "D" []] }]
+
+/-- … it violates the name rule and is rejected with the redefinition code, in both file orders -/
+theorem moduleNameClash_rejected :
+    ¬ namesRule.Holds moduleNameClash ∧ validate moduleNameClash = [code "Redefinition"] ∧
+    validate moduleNameClash.reverse = [code "Redefinition"] := by
+  decide
+
 /-- the former D-04b witness violates the placement rule and is now rejected with the invalid-attribute code -/
 theorem attrOnUnderlying_rejected :
     ¬ (placementRule true).Holds attrOnUnderlying ∧ validate attrOnUnderlying = [code "InvalidAttribute"] := by
@@ -792,4 +804,5 @@ end Slicec.C04
 #print axioms Slicec.C04.mem_ite_else
 #print axioms Slicec.C04.dupEnumeratorField_rejected
 #print axioms Slicec.C04.attrOnUnderlying_rejected
+#print axioms Slicec.C04.moduleNameClash_rejected
 #print axioms Slicec.C04.accept_iff
